@@ -156,7 +156,6 @@ func c15Distribute(res *fw.CaseResult, rng *rand.Rand, n int) {
 		}
 		sort.Slice(ranges, func(i, j int) bool { return ranges[i].s < ranges[j].s })
 		pos := 0
-		lastOrder := -1
 		hitExactly := false
 		for _, r := range ranges {
 			if r.e <= r.s {
@@ -167,11 +166,8 @@ func c15Distribute(res *fw.CaseResult, rng *rand.Rand, n int) {
 				res.Violate("partition", "C15:gap-or-overlap", desc()+fmt.Sprintf(": range of %s starts at %d, previous range ended at %d", r.id, r.s, pos), nil)
 				bad = true
 			}
-			if r.order <= lastOrder {
-				res.Violate("partition", "C15:shard-order", desc()+": ranges are not assigned in shard order", nil)
-				bad = true
-			}
-			lastOrder = r.order
+			// which shard takes which part of the batch is not fixed by the statement (contiguous ranges
+			// that cover the id-sorted batch exactly once are), so the order of the shards is not judged
 			pos = r.e
 			sh := all[r.order]
 			cnt := sh.PointCount + int64(r.e-r.s)
@@ -207,8 +203,27 @@ func c15Distribute(res *fw.CaseResult, rng *rand.Rand, n int) {
 					res.Violate("needless-shard", "C15:needless-shard", desc()+fmt.Sprintf(": shard %s was created but received no points", id), nil)
 					continue
 				}
-				first := points[r[0]]
-				need := int64(len(first.Data) + len(first.Id))
+				// the point of the created shard's range that borders the range of the shard filled just
+				// before it (batches may be consumed front to back or back to front)
+				need := int64(-1)
+				if prev := known[id] - 1; prev >= 0 {
+					if rr, ok := got[all[prev].Id]; ok {
+						switch {
+						case rr[1] == r[0]:
+							need = int64(len(points[r[0]].Data) + len(points[r[0]].Id))
+						case rr[0] == r[1]:
+							need = int64(len(points[r[1]-1].Data) + len(points[r[1]-1].Id))
+						}
+					} else {
+						// the previous shard received nothing: it must have been unable to take either end
+						a := int64(len(points[r[0]].Data) + len(points[r[0]].Id))
+						b := int64(len(points[r[1]-1].Data) + len(points[r[1]-1].Id))
+						need = max(a, b) // the direction of filling is open: only "could have taken either end" is judged
+					}
+				}
+				if need < 0 {
+					continue
+				}
 				// every earlier shard must be unable to take that first point after its own range
 				for j := 0; j < known[id]; j++ {
 					sh := all[j]
